@@ -215,3 +215,11 @@ package traversal
 //@   callsite (*github.com/anacrolix/chansync.SetOnce).Set stopped-only-when-nothing-is-in-flight: $me == &op.stopped && op.outstanding == 0
 //@   loop 1
 //@     invariant locked: op != nil && wheld(op.mu) && opinv(op)
+
+// ---- Start: the invariant holds before the run loop and any caller can touch the lookup ----
+//@ func dht/traversal.Start
+//@   requires a-query-function: input.DoQuery != nil
+//@   ensures the-invariant-holds-from-the-start: opinv(result)
+//@   ensures unlocked: !held(result.mu)
+//@   ensures nothing-queried-nothing-found-yet: result.outstanding == 0 && (forall k addrString :: !(k in result.queried)) && (forall c krpc.NodeInfoAddrPort :: !kmem(result.closest, c))
+//@   ensures one-run-loop: count("go:(*dht/traversal.Operation).run") == 1
